@@ -22,6 +22,12 @@ From TV Require Import Model.SqlSpec Model.PredImpl.
 Import ListNotations.
 Open Scope Z_scope.
 
+(* what the property demands of the two query shapes (observables of Model/PredImpl.qout) *)
+Definition spec_rows (e : expr) (t : table) : list Z := map (fun r => Z.b2z (passes e r)) t.
+Definition code_of_tv (o : option tv) : Z :=
+  match o with Some TT => 1 | Some FF => 0 | _ => 2 end.
+Definition spec_vals (e : expr) (t : table) : list Z := map (fun r => code_of_tv (sem3 e r)) t.
+
 Definition first_nz (a b : Z) : Z := if a =? 0 then b else a.
 
 Definition is_vnull (o : option value) : bool := match o with Some VNull => true | _ => false end.
@@ -149,6 +155,7 @@ Fixpoint cls_s (e : expr) (r : row) : Z :=
   | ELit _ | ECol _ | EArith _ _ _ => 99
   | ECmp _ a b => first_nz (cls_v a r) (first_nz (cls_v b r) (unk e r))
   | EIsNull _ a => cls_v a r
+  | EIn _ a [] => 99                         (* not SQL; never generated *)
   | EIn _ a l =>
       first_nz (cls_v a r) (first_nz (cls_vl l r) (first_nz (unk e r)
         (if existsb (fun i => eq_differs (eval a r) (eval i r)) l then 10 else 0)))
